@@ -55,20 +55,21 @@ PROPS["C10"] = dict(
          "half-way cases of the 18th digit; ratio 1, 0.4, integers 2..10, random below / above 1 with 18 decimals; all scale pairs 0..18), "
          "non-trivial = the exact output has a fractional part; stream erc20: histories of 12-34 (thorough: 12-72) messages: issue, deploy ERC20 "
          "(authority / stranger / unregistered min unit), swap to / from ERC20 (own and foreign receivers, Ethereum-only holders, blocked receiver, "
-         "amounts at balance and balance+1, ERC20 disabled, EVM double misbehaving in 7 ways), swap-to-native through the EVM PostTxProcessing hook "
+         "amounts at balance and balance+1, ERC20 disabled, EVM double misbehaving in 8 ways), ERC20 implementation upgrades (authority / stranger / bad address / reverting beacon), swap-to-native through the EVM PostTxProcessing hook "
          "(receipts with the SwapToNative log of the bound contract after its simulated burn, plus foreign logs; zero amounts, invalid / blocked receivers), fee-token swaps over a random swap registry, mint; a quarter of the histories contain a token whose SYMBOL equals another token's MIN UNIT (different scales, both "
          "with an ERC20 contract, a ratio-1 registry entry targeting the clashing min unit) so that symbol-first and min-unit lookups disagree; "
          "burn, update-params; non-trivial = at least one successful and one failed conversion, or a successful conversion and a successful fee swap",
     codes={1: "token-to-erc20-not-conserved", 2: "token-from-erc20-not-conserved", 3: "token-failed-conversion-changed-state",
            4: "token-swap-burn-out-of-range", 5: "token-swap-mint-exceeds-worth", 6: "token-swap-ratio-one-inexact",
-           7: "token-swap-mints-unregistered-denom"},
+           7: "token-swap-mints-unregistered-denom", 8: "token-admin-message-moved-value"},
     explain={1: "swap to ERC20: native burn, sender debit and ERC20 credit are not all exactly the converted amount",
              2: "swap from ERC20 / swap-to-native hook: ERC20 burn, native mint and receiver credit are not all exactly the converted amount",
              3: "a failed conversion / message changed the native or the ERC20 side",
              4: "fee-token swap burned a negative amount or more than offered",
              5: "fee-token swap minted more than the burned amount is worth at the configured ratio and scales",
              6: "fee-token swap at ratio 1 is not exact or the dust is not below one output unit",
-             7: "fee-token swap minted a denom that is no token's min unit"},
+             7: "fee-token swap minted a denom that is no token's min unit",
+             8: "a successful DeployERC20 / UpgradeERC20 changed a bank supply, a bank balance or an ERC20 balance"},
     trusted_base=_TRUSTED,
     assumptions=["a transactional EVM (state rolled back with the transaction), which is what the double provides and what a real EVM keeper is",
                  "positive ratios; scales 0..18; no sdkmath.Int / LegacyDec overflow (amounts up to 2^128, ratios below 2^70)"],
